@@ -11,6 +11,15 @@
 (*                       else:          self.last = last + 1                   *)
 (*   __call__          leaving the with block, returning       Release         *)
 (*                                                                            *)
+(* Configuration.  The constructor options only govern LOGGING: warn_on_drift  *)
+(* switches the "clock skew" warning off, warning_threshold / warning_interval *)
+(* (seconds) rate-limit it.  conf = [warn, eager]: eager stands for threshold  *)
+(* = interval = 0 (warn at every drifted call whose clock reading is not       *)
+(* before the last warning); otherwise the defaults (1 s, 1 s), which the      *)
+(* microsecond-sized clock values of the model never reach.  The value handed  *)
+(* out and recorded in `last` does not depend on conf (ConfIrrelevant below:   *)
+(* Compute's effect on last / ret is the same expression for every conf).      *)
+(*                                                                            *)
 (* One action per step that another thread could observe or interleave with   *)
 (* if the lock were missing; with the lock only Acquire is a real scheduling   *)
 (* choice (Mutex).  `hist` is the lock-order history of finished calls.        *)
@@ -18,12 +27,19 @@ EXTENDS Integers, Sequences, FiniteSets, TLC
 
 CONSTANTS N,    \* threads 1..N
           K,    \* calls per thread
-          M     \* clock values 0..M
+          M,    \* clock values 0..M
+          Confs \* generator configurations: subset of [warn : BOOLEAN, eager : BOOLEAN]
 
 Threads == 1..N
+AllConfs == [warn : BOOLEAN, eager : BOOLEAN]
+DefaultConf == {[warn |-> TRUE, eager |-> FALSE]}
+EagerConfs == {[warn |-> TRUE, eager |-> TRUE], [warn |-> FALSE, eager |-> TRUE]}
 Clock   == 0..M
 
-VARIABLES lock,   \* 0 = free, else the owner
+VARIABLES conf,   \* the generator's configuration (fixed by Init)
+          lastWarn, \* self._last_warn
+          warnings, \* number of warnings logged
+          lock,   \* 0 = free, else the owner
           last,   \* self.last
           pc,     \* per thread: "idle", "locked", "read", "computed"
           now,    \* per thread: clock value read by the current call
@@ -33,11 +49,14 @@ VARIABLES lock,   \* 0 = free, else the owner
           hist,   \* finished calls in lock order: [t, x, v]
           act     \* last action, for replay
 
-vars == <<lock, last, pc, now, snap, ret, calls, hist, act>>
+vars == <<conf, lastWarn, warnings, lock, last, pc, now, snap, ret, calls, hist, act>>
 
-A(name, t, v) == [name |-> name, t |-> t, v |-> v]
+AW(name, t, v, w) == [name |-> name, t |-> t, v |-> v, w |-> w]    \* w = 1: this step logged a warning
+A(name, t, v) == AW(name, t, v, 0)
 
 Init ==
+    /\ conf \in Confs
+    /\ lastWarn = 0 /\ warnings = 0
     /\ lock = 0
     /\ last = 0
     /\ pc = [t \in Threads |-> "idle"]
@@ -54,7 +73,7 @@ Acquire(t) ==
     /\ lock' = t
     /\ pc' = [pc EXCEPT ![t] = "locked"]
     /\ act' = A("Acquire", t, 0)
-    /\ UNCHANGED <<last, now, snap, ret, calls, hist>>
+    /\ UNCHANGED <<conf, lastWarn, warnings, last, now, snap, ret, calls, hist>>
 
 ReadClock(t, v) ==
     /\ pc[t] = "locked"
@@ -62,16 +81,23 @@ ReadClock(t, v) ==
     /\ snap' = [snap EXCEPT ![t] = last]
     /\ pc' = [pc EXCEPT ![t] = "read"]
     /\ act' = A("ReadClock", t, v)
-    /\ UNCHANGED <<lock, last, ret, calls, hist>>
+    /\ UNCHANGED <<conf, lastWarn, warnings, lock, last, ret, calls, hist>>
+
+\* _maybe_warn (drift branch only): diff = self.last - now >= threshold and now - _last_warn >= interval
+Warns(t) == /\ now[t] <= snap[t]
+            /\ conf.warn /\ conf.eager
+            /\ now[t] - lastWarn >= 0
 
 Compute(t) ==
     /\ pc[t] = "read"
     /\ LET x == IF now[t] > snap[t] THEN now[t] ELSE snap[t] + 1 IN
-       /\ last' = x
+       /\ last' = x                                  \* recorded whatever the logging configuration is
        /\ ret' = [ret EXCEPT ![t] = x]
-       /\ act' = A("Compute", t, x)
+       /\ act' = AW("Compute", t, x, IF Warns(t) THEN 1 ELSE 0)
+    /\ IF Warns(t) THEN warnings' = warnings + 1 /\ lastWarn' = now[t]
+                   ELSE UNCHANGED <<warnings, lastWarn>>
     /\ pc' = [pc EXCEPT ![t] = "computed"]
-    /\ UNCHANGED <<lock, now, snap, calls, hist>>
+    /\ UNCHANGED <<conf, lock, now, snap, calls, hist>>
 
 Release(t) ==
     /\ pc[t] = "computed"
@@ -81,7 +107,7 @@ Release(t) ==
     /\ calls' = [calls EXCEPT ![t] = @ + 1]
     /\ hist' = Append(hist, [t |-> t, x |-> ret[t], v |-> now[t]])
     /\ act' = A("Release", t, ret[t])
-    /\ UNCHANGED <<last, now, snap, ret>>
+    /\ UNCHANGED <<conf, lastWarn, warnings, last, now, snap, ret>>
 
 Next == \E t \in Threads : \/ Acquire(t)
                            \/ \E v \in Clock : ReadClock(t, v)
@@ -93,6 +119,7 @@ FairSpec == Spec /\ WF_vars(Next)
 
 -----------------------------------------------------------------------------
 TypeOK ==
+    /\ conf \in Confs /\ warnings \in Nat
     /\ lock \in 0..N
     /\ last \in Nat
     /\ pc \in [Threads -> {"idle", "locked", "read", "computed"}]
@@ -111,6 +138,12 @@ LastIsMax ==
     /\ \A i \in 1..Len(hist) : hist[i].x <= last
     /\ (hist # <<>> /\ lock = 0) => last = hist[Len(hist)].x
 
+\* logging never replaces the bookkeeping: whatever conf is, a finished call's value is what `last` held when the
+\* lock was released, and warnings are only ever logged by a generator that is configured to warn
+ConfIrrelevant ==
+    /\ (~conf.warn) => warnings = 0
+    /\ \A t \in Threads : pc[t] = "computed" => (last = ret[t] /\ ret[t] > snap[t] /\ ret[t] >= now[t])
+
 Finished == \A t \in Threads : calls[t] = K
 Terminates == <>[]Finished
 
@@ -119,11 +152,15 @@ Witness_Drift == ~(\E i \in 1..Len(hist) : hist[i].x > hist[i].v + 1)
 Witness_BackwardsClock == ~(\E i, j \in 1..Len(hist) : i < j /\ hist[j].v < hist[i].v)
 Witness_Contention == ~(lock # 0 /\ \E t \in Threads : t # lock /\ pc[t] = "idle" /\ calls[t] < K /\ calls[t] > 0)
 Witness_AllDone == ~Finished
+Witness_Warned == ~(warnings >= 2)
+Witness_DriftTwiceSilently == ~(~conf.warn /\ \E i, j \in 1..Len(hist) : i < j /\ hist[i].x > hist[i].v /\ hist[j].x > hist[j].v)
 \* the same witnesses as stuttering probe actions: with NEXT NextW and -coverage, a non-zero count for W_x
 \* shows x is reachable without a separate TLC run (NextW is used for nothing else)
 W_Drift == ~Witness_Drift /\ UNCHANGED vars
 W_BackwardsClock == ~Witness_BackwardsClock /\ UNCHANGED vars
 W_Contention == ~Witness_Contention /\ UNCHANGED vars
 W_AllDone == ~Witness_AllDone /\ UNCHANGED vars
-NextW == Next \/ W_Drift \/ W_BackwardsClock \/ W_Contention \/ W_AllDone
+W_Warned == ~Witness_Warned /\ UNCHANGED vars
+W_DriftTwiceSilently == ~Witness_DriftTwiceSilently /\ UNCHANGED vars
+NextW == Next \/ W_Drift \/ W_BackwardsClock \/ W_Contention \/ W_AllDone \/ W_Warned \/ W_DriftTwiceSilently
 =============================================================================
